@@ -257,6 +257,13 @@ impl PqFold for SortingInference<'_> {
                 from_distinct_on: self.last_sorting_from_distinct_on,
             };
             self.last_sorting_from_distinct_on = false;
+            #[cfg(feature = "verif")]
+            crate::sql::verif_hooks::trace_event(serde_json::json!({
+                "event": "cte_sorting",
+                "tid": cte.tid,
+                "sorting": sorting.sorting,
+                "from_distinct_on": sorting.from_distinct_on,
+            }));
             self.ctes_sorting.insert(cte.tid, sorting);
 
             ctes.push(cte);
@@ -328,6 +335,11 @@ impl PqMapper<RelationExpr, RelationExpr, (), ()> for SortingInference<'_> {
 
         let mut result = Vec::with_capacity(transforms.len() + 1);
 
+        #[cfg(feature = "verif")]
+        let verif_input = serde_json::to_value(&transforms).unwrap_or_default();
+        #[cfg(feature = "verif")]
+        let mut verif_froms: Vec<serde_json::Value> = Vec::new();
+
         for mut transform in transforms {
             match transform {
                 SqlTransform::From(mut expr) => {
@@ -352,8 +364,16 @@ impl PqMapper<RelationExpr, RelationExpr, (), ()> for SortingInference<'_> {
                             expr.kind = RelationExprKind::SubQuery(rel);
                         }
                     }
+                    #[cfg(feature = "verif")]
+                    let verif_before_redirect = sorting.clone();
                     sorting =
                         CidRedirector::redirect_sorts(sorting, &expr.riid, &mut self.ctx.anchor);
+                    #[cfg(feature = "verif")]
+                    verif_froms.push(serde_json::json!({
+                        "inherited": verif_before_redirect,
+                        "redirected": sorting,
+                        "from_distinct_on": sorting_from_distinct_on,
+                    }));
                     transform = SqlTransform::From(expr);
                 }
 
@@ -428,6 +448,17 @@ impl PqMapper<RelationExpr, RelationExpr, (), ()> for SortingInference<'_> {
                 }
             }
         }
+
+        #[cfg(feature = "verif")]
+        crate::sql::verif_hooks::trace_event(serde_json::json!({
+            "event": "infer_sorts",
+            "main": self.main_relation,
+            "input": verif_input,
+            "froms": verif_froms,
+            "output": result,
+            "sorting": sorting,
+            "from_distinct_on": sorting_from_distinct_on,
+        }));
 
         // remember sorting for this pipeline
         self.last_sorting = sorting;
